@@ -1,6 +1,8 @@
 package props
 
 import (
+	"strings"
+
 	"github.com/wkhere/bcl"
 
 	"verifharness/refbcl"
@@ -207,5 +209,70 @@ func C10_Generated() {
 		return
 	}
 	c10Static(p)
+	verif.Reach("checked")
+}
+
+// C10_Growth: CONCRETE INSTANCES - n variable declarations followed by
+// short-circuit expressions, so that jump emission and patching happen at
+// every position relative to the growth steps of the code buffer.
+func C10_Growth() {
+	n := verif.Choice("n", 70)
+	src := ""
+	for i := 0; i < n; i++ {
+		src += "var v" + itoa(i) + "\n"
+	}
+	src += "print 5 or (2+3+4+5+6+7+8+9)\nprint 0 and (1 or 2) or 3\n"
+	out, log := &symio.Writer{}, &symio.Writer{}
+	p, err := bcl.Parse([]byte(src), "src", bcl.OptOutput(out), bcl.OptLogger(log))
+	if err != nil {
+		panic("c10: program rejected: " + log.String())
+	}
+	c10Static(p)
+	_, _, xerr := bcl.Execute(p)
+	verif.Assert(xerr == nil && out.String() == "5\n3\n", "executes to the expected output")
+	verif.Reach("checked")
+}
+
+// C10_Wide: CONCRETE INSTANCES - more than 240 locals, constants and field
+// names, so that operands need two-byte varints.
+func C10_Wide() {
+	n := []int{239, 240, 241, 242, 255, 256, 300}[verif.Choice("n", 7)]
+	src := ""
+	switch verif.Choice("what", 3) {
+	case 0: // locals
+		for i := 0; i < n; i++ {
+			src += "var v" + itoa(i) + " = " + itoa(i) + "\n"
+		}
+		src += "print 7 or v" + itoa(n-1) + "\nprint 0 or v" + itoa(n-1) + "\neval v" + itoa(n-1) + " = 1\n"
+	case 1: // field names
+		src += "def t {\n"
+		for i := 0; i < n; i++ {
+			src += "f" + itoa(i) + " = " + itoa(i) + "\n"
+		}
+		src += "g = f" + itoa(n-1) + " or f0\n}\n"
+	default: // constants
+		for i := 0; i < n; i++ {
+			src += "print " + itoa(1000+i) + "\n"
+		}
+		src += "print 1 and " + itoa(5000) + "\n"
+	}
+	out, log := &symio.Writer{}, &symio.Writer{}
+	p, err := bcl.Parse([]byte(src), "src", bcl.OptOutput(out), bcl.OptLogger(log), bcl.OptDisasm(true))
+	if err != nil {
+		panic("c10: program rejected: " + log.String())
+	}
+	// disassembly: one line per instruction (C19's claim at large operands)
+	ins, ok := refbcl.DecodeCode(bcl.VerifCode(p))
+	lines := 0
+	for _, l := range strings.Split(out.String(), "\n") {
+		if len(l) >= 5 && l[4] == ' ' && isDigits(l[:4]) {
+			lines++
+		}
+	}
+	verif.Assert(ok && lines == len(ins), "disassembly lists each instruction once")
+	c10Static(p)
+	out.Buf = nil
+	_, _, xerr := bcl.Execute(p)
+	verif.Assert(xerr == nil, "executes without error")
 	verif.Reach("checked")
 }
